@@ -1279,7 +1279,9 @@ pub fn jmap(pairs: Vec<(&str, Value)>) -> Value {
 
 /// dense clock array from a serialised VClock (Tree::Map actor -> counter)
 pub fn clock_arr(t: &Tree, n: usize, zero_flag: &mut bool) -> Value {
-    let mut v = vec![0u64; n];
+    // an explicit zero counter (residue no correct clock holds) is rendered as -1: the same JSON / TLA+ type as
+    // any clock, equal to no clock of the model
+    let mut v = vec![0i64; n];
     for (a, c) in t.map() {
         let a = a.u() as usize;
         let c = c.u();
@@ -1287,7 +1289,7 @@ pub fn clock_arr(t: &Tree, n: usize, zero_flag: &mut bool) -> Value {
             *zero_flag = true;
         }
         if a >= 1 && a <= n {
-            v[a - 1] = c;
+            v[a - 1] = if c == 0 { -1 } else { c as i64 };
         } else {
             panic!("actor {} outside 1..{}", a, n);
         }
